@@ -46,7 +46,7 @@ ScaleSizes(f) ==
     \* complete cyclic graphs: 9 nodes take about a second, 11 nodes minutes (n = 10 sits at the bound and is left out: a
     \* check must not depend on the load of the machine); 11 and 12 are recorded as an open finding
     [] f \in {"cyc", "cycopt"} -> IF ScaleTier = "quick" THEN {2, 3, 4, 5, 6, 7, 8, 9, 11} ELSE {2, 3, 4, 5, 6, 7, 8, 9, 11, 12}
-    [] f = "ifacedense" -> IF ScaleTier = "quick" THEN {4, 8, 12, 16, 20} ELSE 2..24
+    [] f = "ifacedense" -> IF ScaleTier = "quick" THEN {4, 8, 12, 16, 20, 24, 28, 32, 40} ELSE 2..40   \* (40 interfaces: 5 KiB)
     [] f \in {"seqnest", "dictnest", "resnest", "parens", "nots", "modulenest"} -> IF ScaleTier = "quick" THEN {1, 8, 64, 256, 700} ELSE {1, 2, 4, 8, 16, 32, 64, 128, 256, 512, 700}
     [] f = "files" -> IF ScaleTier = "quick" THEN {1, 16, 64} ELSE {1, 2, 4, 8, 16, 32, 64}
     [] OTHER -> IF ScaleTier = "quick" THEN {1, 10, 100} ELSE {1, 2, 5, 10, 20, 50, 100, 150}
